@@ -99,9 +99,31 @@ func Discharge(units []*Unit, cfg SolverCfg) {
 			jobs = append(jobs, job{u, o})
 		}
 	}
-	// stage 1: one fast attempt each
+	// stage 0: one incremental solver session per unit (facts asserted once, each goal under push/pop)
 	var hard []job
 	var mu sync.Mutex
+	if !cfg.Thorough {
+		var wg0 sync.WaitGroup
+		for _, u := range units {
+			if u.VC == nil || len(u.VC.obls) == 0 {
+				continue
+			}
+			const chunk = 30
+			for from := 0; from < len(u.VC.obls); from += chunk {
+				to := from + chunk
+				if to > len(u.VC.obls) {
+					to = len(u.VC.obls)
+				}
+				wg0.Add(1)
+				go func(u *Unit, from, to int) {
+					defer wg0.Done()
+					stage0(u, cfg, from, to)
+				}(u, from, to)
+			}
+		}
+		wg0.Wait()
+	}
+	// stage 1: one fast stand-alone attempt for what stage 0 did not discharge
 	var wg sync.WaitGroup
 	ch := make(chan job)
 	for w := 0; w < par; w++ {
@@ -118,6 +140,9 @@ func Discharge(units []*Unit, cfg SolverCfg) {
 		}()
 	}
 	for _, j := range jobs {
+		if j.o.Status == "unsat" {
+			continue
+		}
 		ch <- j
 	}
 	close(ch)
@@ -322,5 +347,55 @@ func stage2(u *Unit, o *Obligation, cfg SolverCfg) {
 	}
 	if o.Status == "unsat" && !cfg.KeepFiles {
 		os.Remove(file)
+	}
+}
+
+// stage0: incremental session with z3-new; only `unsat` answers are taken from it.
+func stage0(u *Unit, cfg SolverCfg, from, to int) {
+	file := filepath.Join(cfg.WorkDir, fmt.Sprintf("inc_%s_%d.smt2", shortFile(u.VC.name), from))
+	os.WriteFile(file, []byte(u.VC.incrementalScript(1500, from, to)), 0o644)
+	defer func() {
+		if !cfg.KeepFiles {
+			os.Remove(file)
+		}
+	}()
+	cpuSem <- true
+	budget := time.Duration(to-from)*1600*time.Millisecond + 20*time.Second
+	ctx, cancel := context.WithTimeout(context.Background(), budget)
+	cmd := exec.CommandContext(ctx, "z3-new", file)
+	var buf bytes.Buffer
+	cmd.Stdout = &buf
+	cmd.Stderr = &buf
+	t0 := time.Now()
+	_ = cmd.Run()
+	cancel()
+	<-cpuSem
+	secs := time.Since(t0).Seconds()
+	lines := strings.Split(buf.String(), "\n")
+	cur := -1
+	n := 0
+	for _, l := range lines {
+		l = strings.TrimSpace(l)
+		if strings.HasPrefix(l, "@obl ") {
+			fmt.Sscanf(l, "@obl %d", &cur)
+			continue
+		}
+		if cur >= 0 && cur < len(u.VC.obls) {
+			switch l {
+			case "unsat":
+				o := u.VC.obls[cur]
+				o.Status, o.Solver = "unsat", "z3new-inc"
+				n++
+				cur = -1
+			case "sat", "unknown":
+				cur = -1
+			}
+		}
+	}
+	if n > 0 {
+		per := secs / float64(to-from)
+		for _, o := range u.VC.obls[from:to] {
+			o.Seconds += per
+		}
 	}
 }
